@@ -222,6 +222,26 @@ func jwtCases(k *signKey, alg string, other []*signKey, now time.Time, rnd func(
 		h["crit"] = []string{"exp"}
 		add("extra header fields (ignored)", h, cl, nil, "")
 	}
+	{
+		// segments that are a JSON object followed by more bytes, correctly signed over exactly that text (a lenient decoder that
+		// stops after the first value would read the object and ignore the rest): not a JSON text, so not a token - except for
+		// trailing white space, which JSON allows
+		hb, _ := json.Marshal(hdr)
+		cb, _ := json.Marshal(cl)
+		raw := func(label string, h, c []byte) {
+			in := b64.EncodeToString(h) + "." + b64.EncodeToString(c)
+			out = append(out, jwtCase{label, in + "." + b64.EncodeToString(signBytes(k, alg, []byte(in)))})
+		}
+		raw("header followed by a second object", append(append([]byte{}, hb...), []byte(`{"alg":"none"}`)...), cb)
+		raw("header followed by text", append(append([]byte{}, hb...), []byte(`trailer`)...), cb)
+		raw("payload followed by a second object", hb, append(append([]byte{}, cb...), []byte(`{"sub":"admin","aud":"cid"}`)...))
+		raw("payload followed by a comma and a member", hb, append(append([]byte{}, cb...), []byte(`,"sub":"admin"`)...))
+		raw("payload followed by a closing brace", hb, append(append([]byte{}, cb...), '}'))
+		raw("payload followed by white space", hb, append(append([]byte{}, cb...), []byte(" \n\t")...))
+		raw("header preceded by white space", append([]byte(" \n"), hb...), cb)
+		raw("payload with a byte-order mark", hb, append([]byte("\xef\xbb\xbf"), cb...))
+		raw("payload is an array holding the object", hb, append(append([]byte{'['}, cb...), ']'))
+	}
 	// every other algorithm name of the nine, signed by this key where the family fits
 	for a := range nineAlgs {
 		if a == alg {
